@@ -539,6 +539,9 @@ func (g *gen) genProvide(s int) Op {
 	o := &Opts{}
 	export := s != 0 && g.pct(g.k.PExport, "export")
 	o.Export = export
+	if !export && g.k.PExport > 0 && g.pct(8, "exportfalse") {
+		o.ExportFalse = true // explicit Export(false): no effect
+	}
 	home := s
 	if export {
 		home = 0
@@ -761,7 +764,7 @@ func (g *gen) genProvide(s int) Op {
 			o.AsEmpty = len(o.As) == 0
 		}
 	}
-	if o.Name != "" || o.Group != "" || len(o.As) > 0 || o.Export || o.Info || o.CB || o.InfoNil || o.CBNil || o.AsEmpty {
+	if o.Name != "" || o.Group != "" || len(o.As) > 0 || o.Export || o.ExportFalse || o.Info || o.CB || o.InfoNil || o.CBNil || o.AsEmpty {
 		op.O = o
 	}
 	if g.pct(g.k.PReencode, "reenc") {
@@ -1019,7 +1022,7 @@ func (g *gen) setAlt(opIdx int, f *Fn, o *Opts) {
 	if g.c.Variant.Alt == nil {
 		g.c.Variant.Alt = map[int]*AltOp{}
 	}
-	if o != nil && o.Name == "" && o.Group == "" && len(o.As) == 0 && !o.Export && !o.Info && !o.CB && !o.InfoNil && !o.CBNil && !o.AsEmpty {
+	if o != nil && o.Name == "" && o.Group == "" && len(o.As) == 0 && !o.Export && !o.ExportFalse && !o.Info && !o.CB && !o.InfoNil && !o.CBNil && !o.AsEmpty {
 		o = nil
 	}
 	g.c.Variant.Alt[opIdx] = &AltOp{F: f, O: o}
